@@ -133,6 +133,10 @@ func buildFamilies(thorough bool) {
 		families = append(families, f)
 	}
 
+	// (a') standalone TLV headers whose length makes header+length wrap (too long for the odometer
+	// families): type x length, bare and followed by 4 bytes of value
+	families = append(families, wrapFamily(all))
+
 	// (b) single mutations of every seed
 	mut1 = nil
 	seedEdits = make([][]edit, len(seeds))
@@ -222,4 +226,32 @@ func buildFamilies(thorough bool) {
 
 	// (c) stream framing at the receive buffer's capacity
 	families = append(families, streamFullFamily())
+}
+
+func wrapFamily(ents []int) *family {
+	var types [][]byte
+	for _, t := range alphabet {
+		if t <= 0xfc {
+			types = append(types, []byte{t})
+		}
+	}
+	types = append(types, []byte{0xfd, 0x03, 0x20}, []byte{0xfe, 0, 1, 0, 0}, []byte{0xff, 0, 0, 0, 1, 0, 0, 0, 0})
+	vals := append([]uint64{1 << 63, 1 << 32}, wrapLengths()...)
+	var cases [][]byte
+	for _, t := range types {
+		for _, v := range vals {
+			for _, w := range []int{5, 9} {
+				if !fitsWidth(v, w) {
+					continue
+				}
+				c := append(append([]byte{}, t...), encVar(v, w)...)
+				cases = append(cases, c, append(append([]byte{}, c...), 0x08, 0x02, 0x61, 0x62))
+			}
+		}
+	}
+	f := &family{name: "TLV headers with wrap-around lengths", size: int64(len(cases))}
+	f.get = func(i int64, buf []byte) []byte { return append(make([]byte, 0, len(cases[i])), cases[i]...) }
+	f.desc = func(i int64) string { return fmt.Sprintf("wrap-around header %x", cases[i]) }
+	f.groups = []group{{0, f.size, ents, "all entries"}}
+	return f
 }
